@@ -147,3 +147,14 @@ Proof.
   - intros [x [Hin He]]. apply String.eqb_eq in He. now subst.
   - intros H. exists s. split; auto. apply String.eqb_refl.
 Qed.
+
+(* ASCII case folding (strings.EqualFold / strings.ToLower on ASCII text) *)
+Definition lower_ascii (c : ascii) : ascii :=
+  let n := nat_of_ascii c in
+  if Nat.leb 65 n && Nat.leb n 90 then ascii_of_nat (n + 32) else c.
+Fixpoint to_lower (s : string) : string :=
+  match s with
+  | EmptyString => EmptyString
+  | String c r => String (lower_ascii c) (to_lower r)
+  end.
+Definition equal_fold (a b : string) : bool := String.eqb (to_lower a) (to_lower b).
